@@ -67,7 +67,7 @@ def check(ctx):
         t = show(Norm(fn).term(fn["body"]), 10 ** 6)
         import re as _re
         # canonical form of the separator loop: the members joined by ',', then one more ',' iff there is exactly one member
-        ok = _re.search(r"\.String::push_str\(slice::join\(.*,','\)\);\.String::push\(','\) if \(slice::len\([^()]*fields\)=='1'\);\.String::push\('\)'\)", t) is not None
+        ok = _re.search(r"F\[\(\{slice::join\(.*,','\)\}\{if\(\(slice::len\([^()]*fields\)=='1'\)\)\{','\}else\{''\}\}\)\]", t) is not None
         ctx.expect(ok, "C13.3", nm, fn["sp"], "members joined by ',' and a trailing ',' iff len == 1 (one-element tuples keep their comma)", "tuple comma rule changed in " + fnsuf + ": " + t[:300])
     # K1 primitive names
     pf = q.fn1(P, "description::primitive_type_description", D)
